@@ -442,8 +442,6 @@ class TransactionManager(Elaboratable):
         final_simultaneous = set(filter(maximal, tr_simultaneous))
 
         # step 4: convert transactions to methods
-        joined_transactions = set[TBody]().union(*final_simultaneous)
-
         self.transactions = list(filter(lambda tr: tr._body not in all_simultaneous, self.transactions))
 
         methods = dict[TBody, Method]()
@@ -451,7 +449,9 @@ class TransactionManager(Elaboratable):
         m = TModule()
         m._MustUse__silence = True  # type: ignore
 
-        for transaction in joined_transactions:
+        # Transactions which are in no group never run, but stay in the design (as methods nobody calls):
+        # the bodies nested in them depend on them.
+        for transaction in all_simultaneous:
             method = Method(name=transaction.name, src_loc=transaction.src_loc)
             method._set_impl(transaction)
             DependencyContext.get().add_dependency(ProvidedMethodsKey(), method)
